@@ -118,11 +118,12 @@ func runTimeoutCase(c TimeoutCase, seed int64) TimeoutEv {
 // ---- cancellation over real sockets ---------------------------------------------------------
 
 type CancelCase struct {
-	ID     int    `json:"id"`
-	Shape  string `json:"shape"`  // unary | cstream | sstream | bidi
-	Point  string `json:"point"`  // running | blockedRecv | blockedSend | returned
-	Client string `json:"client"` // grpc-cancel | grpc-deadline | http-disconnect | grpcweb-disconnect
-	Fam    string `json:"fam"`
+	ID      int    `json:"id"`
+	Shape   string `json:"shape"`   // unary | cstream | sstream | bidi
+	Point   string `json:"point"`   // running | blockedRecv | blockedSend | returned
+	Client  string `json:"client"`  // grpc-cancel | grpc-deadline | http-disconnect | grpcweb-disconnect
+	LateEnd bool   `json:"lateend"` // raw HTTP/1.1 clients, complete bodies: chunked, the terminating chunk arrives 150 ms after the message
+	Fam     string `json:"fam"`
 }
 type CancelEv struct {
 	Ev         string `json:"ev"`
@@ -130,6 +131,7 @@ type CancelEv struct {
 	Shape      string `json:"shape"`
 	Point      string `json:"point"`
 	Client     string `json:"client"`
+	LateEnd    bool   `json:"lateend"`
 	Reached    bool   `json:"reached"`    // the handler was in the intended position when the client cancelled
 	CtxDone    bool   `json:"ctxdone"`    // the handler's context ended within the wait
 	DoneBefore bool   `json:"donebefore"` // ... it had already ended before the client did anything
@@ -162,7 +164,7 @@ func (s *sockServer) stop() { s.srv.Close() }
 const cancelWait = 5 * time.Second
 
 func runCancelCase(c CancelCase) (ev CancelEv) {
-	ev = CancelEv{Ev: "Cancel", Case: c.ID, Shape: c.Shape, Point: c.Point, Client: c.Client}
+	ev = CancelEv{Ev: "Cancel", Case: c.ID, Shape: c.Shape, Point: c.Point, Client: c.Client, LateEnd: c.LateEnd}
 	defer func() {
 		if p := recover(); p != nil {
 			ev.Crash = fmt.Sprint(p)
@@ -263,6 +265,12 @@ func runCancelCase(c CancelCase) (ev CancelEv) {
 		case "returned":
 			position()
 			return nil
+		case "idleAfterSend":
+			if md.IsStreamingServer() {
+				if err := ss.SendMsg(repMsg(c.ID, 1, 3)); err != nil {
+					return err
+				}
+			}
 		}
 		position()
 		select {
@@ -333,6 +341,10 @@ func runCancelCase(c CancelCase) (ev CancelEv) {
 			fmt.Fprintf(&req, "Transfer-Encoding: chunked\r\n\r\n%x\r\n", len(body))
 			req.Write(body)
 			req.WriteString("\r\n")
+		} else if c.LateEnd {
+			fmt.Fprintf(&req, "Transfer-Encoding: chunked\r\n\r\n%x\r\n", len(body))
+			req.Write(body)
+			req.WriteString("\r\n")
 		} else {
 			fmt.Fprintf(&req, "Content-Length: %d\r\n\r\n", len(body))
 			req.Write(body)
@@ -340,6 +352,10 @@ func runCancelCase(c CancelCase) (ev CancelEv) {
 		if _, err := conn.Write(req.Bytes()); err != nil {
 			ev.Crash = "write: " + err.Error()
 			return
+		}
+		if c.LateEnd && !(c.Shape == "cstream" || c.Shape == "bidi") {
+			time.Sleep(150 * time.Millisecond) // the handler has read its message by now
+			conn.Write([]byte("0\r\n\r\n"))
 		}
 		if c.Point != "blockedSend" {
 			go io.Copy(io.Discard, bufio.NewReader(conn)) // a reading client, except when the send side must fill up
